@@ -91,7 +91,7 @@ sqfs_u32 xxh32(const void *input, const size_t len)
 
 	h32 += (sqfs_u32)len;
 
-	while (p + 4 <= b_end) {
+	while ((size_t)(b_end - p) >= 4) {
 		h32 += XXH_readLE32(p) * PRIME32_3;
 		h32 = xxh_rotl32(h32, 17) * PRIME32_4;
 		p += 4;
